@@ -230,6 +230,21 @@ def literals():
                             bad.append("%r -> %s" % (s, what))
             res.append(ob("literals/%s" % rule, not bad and n > 0, "no internal exception", bad[:5] or "%d strings" % n, known_hits=sorted(known),
                           bounded="all strings over %r up to length %d that the terminal's regex accepts" % (alphabet, maxlen)))
+        # hex numerals on both sides of BASIC09's 16-bit limit in every position that takes one (a DIM size is stored as size + 1)
+        bad, n = [], 0
+        for v in ("0", "1", "7FFE", "7FFF", "8000", "8001", "FFFE", "FFFF", "10000", "FFFFFF"):
+            for frame in ("10 A=&H%s\n", "10 DIM A(&H%s)\n", "10 DIM A$(2,&H%s)\n", "10 POKE &H%s,1\n", "10 A=PEEK(&H%s)\n", "10 DATA &H%s,,2\n20 READ A\n", "10 DATA &H%s\n", "10 A(&H%s)=1\n", "10 PRINT &H%s\n",
+                          "10 IF A=&H%s THEN 10\n", "10 FOR I=&H%s TO &H%s:NEXT\n", "10 SOUND &H%s,1\n", "10 ON &H%s GOTO 10\n"):
+                src = frame.replace("%s", v)
+                for kw in (dict(add_standard_prefix=False), dict(initialize_vars=True)):
+                    n += 1
+                    try:
+                        convert(src, **kw)
+                    except Exception as e:  # noqa
+                        kind, what = classify(e)
+                        if kind == "internal":
+                            bad.append("%r -> %s" % (src, what))
+        res.append(ob("literals/hex numerals around 16 bits in every position", not bad, "no internal exception", bad[:5] or "%d conversions" % n, bounded="10 values x 13 positions x 2 option sets"))
         return res
     return guarded("literals", run)
 
